@@ -63,24 +63,24 @@ package openapi3
 //@   tag C04
 //@ func (Content).Validate
 //@   modifies *
-//@   preserves @C04 Parameter.*, SerializationMethod.*, *bool, MediaType.*, map[string]*Encoding, Encoding.*, map[string]*HeaderRef, []string, map[string]*ExampleRef, ExampleRef.Value, Info.Title, Info.Version, Info.Extensions, License.Name, License.Extensions, ExternalDocs.URL, ExternalDocs.Extensions, Response.Description, RequestBody.Content, RequestBody.Extensions, Operation.Responses, Operation.Extensions, Server.URL, Server.Variables, Server.Extensions, SecurityScheme.*, map[string]*ServerVariable
+//@   preserves @C04 []*ParameterRef, ParameterRef.Value, Parameter.*, SerializationMethod.*, *bool, MediaType.*, map[string]*Encoding, Encoding.*, map[string]*HeaderRef, []string, map[string]*ExampleRef, ExampleRef.Value, Info.Title, Info.Version, Info.Extensions, License.Name, License.Extensions, ExternalDocs.URL, ExternalDocs.Extensions, Response.Description, RequestBody.Content, RequestBody.Extensions, Operation.Responses, Operation.Extensions, Server.URL, Server.Variables, Server.Extensions, SecurityScheme.*, map[string]*ServerVariable
 //@   defines (result == nil) <==> contentOK(content)
 //@ func (*SchemaRef).Validate
 //@   modifies *
-//@   preserves @C04 Parameter.*, SerializationMethod.*, *bool, MediaType.*, map[string]*Encoding, Encoding.*, map[string]*HeaderRef, []string, map[string]*ExampleRef, ExampleRef.Value, Info.Title, Info.Version, Info.Extensions, License.Name, License.Extensions, ExternalDocs.URL, ExternalDocs.Extensions, Response.Description, RequestBody.Content, RequestBody.Extensions, Operation.Responses, Operation.Extensions, Server.URL, Server.Variables, Server.Extensions, SecurityScheme.*, map[string]*ServerVariable
+//@   preserves @C04 []*ParameterRef, ParameterRef.Value, Parameter.*, SerializationMethod.*, *bool, MediaType.*, map[string]*Encoding, Encoding.*, map[string]*HeaderRef, []string, map[string]*ExampleRef, ExampleRef.Value, Info.Title, Info.Version, Info.Extensions, License.Name, License.Extensions, ExternalDocs.URL, ExternalDocs.Extensions, Response.Description, RequestBody.Content, RequestBody.Extensions, Operation.Responses, Operation.Extensions, Server.URL, Server.Variables, Server.Extensions, SecurityScheme.*, map[string]*ServerVariable
 //@   defines (result == nil) <==> schemaRefOK(x)
 //@ func validateExtensions
 //@   modifies *
-//@   preserves @C04 Parameter.*, SerializationMethod.*, *bool, MediaType.*, map[string]*Encoding, Encoding.*, map[string]*HeaderRef, []string, map[string]*ExampleRef, ExampleRef.Value, Info.Title, Info.Version, Info.Extensions, License.Name, License.Extensions, ExternalDocs.URL, ExternalDocs.Extensions, Response.Description, RequestBody.Content, RequestBody.Extensions, Operation.Responses, Operation.Extensions, Server.URL, Server.Variables, Server.Extensions, SecurityScheme.*, map[string]*ServerVariable
+//@   preserves @C04 []*ParameterRef, ParameterRef.Value, Parameter.*, SerializationMethod.*, *bool, MediaType.*, map[string]*Encoding, Encoding.*, map[string]*HeaderRef, []string, map[string]*ExampleRef, ExampleRef.Value, Info.Title, Info.Version, Info.Extensions, License.Name, License.Extensions, ExternalDocs.URL, ExternalDocs.Extensions, Response.Description, RequestBody.Content, RequestBody.Extensions, Operation.Responses, Operation.Extensions, Server.URL, Server.Variables, Server.Extensions, SecurityScheme.*, map[string]*ServerVariable
 //@   defines (result == nil) <==> extensionsOK(extensions)
 //@ func validateExampleValue
 //@   modifies *
-//@   preserves @C04 Parameter.*, SerializationMethod.*, *bool, MediaType.*, map[string]*Encoding, Encoding.*, map[string]*HeaderRef, []string, map[string]*ExampleRef, ExampleRef.Value, Info.Title, Info.Version, Info.Extensions, License.Name, License.Extensions, ExternalDocs.URL, ExternalDocs.Extensions, Response.Description, RequestBody.Content, RequestBody.Extensions, Operation.Responses, Operation.Extensions, Server.URL, Server.Variables, Server.Extensions, SecurityScheme.*, map[string]*ServerVariable
+//@   preserves @C04 []*ParameterRef, ParameterRef.Value, Parameter.*, SerializationMethod.*, *bool, MediaType.*, map[string]*Encoding, Encoding.*, map[string]*HeaderRef, []string, map[string]*ExampleRef, ExampleRef.Value, Info.Title, Info.Version, Info.Extensions, License.Name, License.Extensions, ExternalDocs.URL, ExternalDocs.Extensions, Response.Description, RequestBody.Content, RequestBody.Extensions, Operation.Responses, Operation.Extensions, Server.URL, Server.Variables, Server.Extensions, SecurityScheme.*, map[string]*ServerVariable
 // (assumed of the reference wrapper's validator - not verified here: success means the reference is resolved)
 //@ func (*ExampleRef).Validate
 //@   modifies *
 //@   ensures result == nil ==> x.Value != nil
-//@   preserves @C04 Parameter.*, SerializationMethod.*, *bool, MediaType.*, map[string]*Encoding, Encoding.*, map[string]*HeaderRef, []string, map[string]*ExampleRef, ExampleRef.Value, Info.Title, Info.Version, Info.Extensions, License.Name, License.Extensions, ExternalDocs.URL, ExternalDocs.Extensions, Response.Description, RequestBody.Content, RequestBody.Extensions, Operation.Responses, Operation.Extensions, Server.URL, Server.Variables, Server.Extensions, SecurityScheme.*, map[string]*ServerVariable
+//@   preserves @C04 []*ParameterRef, ParameterRef.Value, Parameter.*, SerializationMethod.*, *bool, MediaType.*, map[string]*Encoding, Encoding.*, map[string]*HeaderRef, []string, map[string]*ExampleRef, ExampleRef.Value, Info.Title, Info.Version, Info.Extensions, License.Name, License.Extensions, ExternalDocs.URL, ExternalDocs.Extensions, Response.Description, RequestBody.Content, RequestBody.Extensions, Operation.Responses, Operation.Extensions, Server.URL, Server.Variables, Server.Extensions, SecurityScheme.*, map[string]*ServerVariable
 
 //@ func (*Parameter).Validate
 //@   requires parameter != nil
@@ -88,6 +88,7 @@ package openapi3
 //@   loop 1 invariant forall k string :: keys(names)[k] ==> has(examples, k)
 //@   assuming @C20 ctx != nil && (forall k string :: has(parameter.Examples, k) ==> parameter.Examples[k] != nil && parameter.Examples[k].Value != nil)
 //@   modifies *
+//@   preserves @C04 []*ParameterRef, ParameterRef.Value, Parameter.*, SerializationMethod.*, *bool, MediaType.*, map[string]*Encoding, Encoding.*, map[string]*HeaderRef, []string, map[string]*ExampleRef, ExampleRef.Value, Info.Title, Info.Version, Info.Extensions, License.Name, License.Extensions, ExternalDocs.URL, ExternalDocs.Extensions, Response.Description, RequestBody.Content, RequestBody.Extensions, Operation.Responses, Operation.Extensions, Server.URL, Server.Variables, Server.Extensions, SecurityScheme.*, map[string]*ServerVariable
 //@   ensures [rules] result == nil ==> old(paramRules(parameter))
 //@   ensures [children] result == nil ==> (old(parameter.Content) != nil ==> contentOK(old(parameter.Content))) && (old(parameter.Schema) != nil ==> schemaRefOK(old(parameter.Schema))) && extensionsOK(old(parameter.Extensions))
 //@   option safety-tags C20
@@ -103,7 +104,7 @@ package openapi3
 //@ spec pathKeys(p *Paths) map[string]*PathItem := p.m
 
 // helpers without a contract of their own are scanned for these frame facts
-//@ default-frame @C04 preserves []string, Paths.m
+//@ default-frame @C04 preserves []string, Paths.m, ParameterRef.Value, []*ParameterRef
 
 //@ func (*Paths).Len
 //@   modifies nothing
@@ -208,7 +209,7 @@ package openapi3
 
 // validators without a contract of their own are scanned for these frame facts (validation reads
 // the objects it validates; it does not rewrite their required fields or extension maps)
-//@ default-frame @C04 preserves Info.Title, Info.Version, Info.Extensions, License.Name, License.Extensions, ExternalDocs.URL, ExternalDocs.Extensions, Response.Description, RequestBody.Content, RequestBody.Extensions, Operation.Responses, Operation.Extensions, Server.URL, Server.Variables, Server.Extensions, SecurityScheme.*, map[string]*ServerVariable
+//@ default-frame @C04 preserves []*ParameterRef, ParameterRef.Value, Info.Title, Info.Version, Info.Extensions, License.Name, License.Extensions, ExternalDocs.URL, ExternalDocs.Extensions, Response.Description, RequestBody.Content, RequestBody.Extensions, Operation.Responses, Operation.Extensions, Server.URL, Server.Variables, Server.Extensions, SecurityScheme.*, map[string]*ServerVariable
 
 // ---- "a missing required field ... an ill-formed security scheme or server" (C04): the scalar rules
 // of the small validators, one post-condition per rule (the OpenAPI 3.0.3 object definitions), and
@@ -308,3 +309,34 @@ package openapi3
 //@   modifies *
 //@   option safety-tags C20
 //@   tag C20
+
+// ---- parameter lists: every entry valid, no two entries with the same location and name
+// (OAS 3.0.3 "Operation Object": "The list MUST NOT include duplicated parameters. A unique parameter
+// is defined by a combination of a name and location.")
+//@ spec paramRefOK(x *ParameterRef) bool
+// (paramRefOK is the verdict of (*ParameterRef).Validate; that a valid entry is resolved and has one of
+// the four locations is the [resolved-and-ruled] postcondition below, restated for entries not yet visited)
+//@ axiom validParamRefIsResolved: forall x *ParameterRef :: paramRefOK(x) ==> x != nil && x.Value != nil && knownIn(x.Value.In)
+//@ spec sameParam(a *ParameterRef, b *ParameterRef) bool := a.Value != nil && b.Value != nil && a.Value.In == b.Value.In && a.Value.Name == b.Value.Name
+//@ func (*ParameterRef).Validate
+//@   requires x != nil
+//@   modifies *
+//@   preserves @C04 []*ParameterRef, ParameterRef.Value, Parameter.*, SerializationMethod.*, *bool, MediaType.*, map[string]*Encoding, Encoding.*, map[string]*HeaderRef, []string, map[string]*ExampleRef, ExampleRef.Value, Info.Title, Info.Version, Info.Extensions, License.Name, License.Extensions, ExternalDocs.URL, ExternalDocs.Extensions, Response.Description, RequestBody.Content, RequestBody.Extensions, Operation.Responses, Operation.Extensions, Server.URL, Server.Variables, Server.Extensions, SecurityScheme.*, map[string]*ServerVariable
+//@   defines (result == nil) <==> paramRefOK(x)
+//@   ensures [resolved-and-ruled] result == nil ==> old(x.Value) != nil && old(paramRules(x.Value))
+//@   option safety-tags none
+//@   tag C04
+//@ func (Parameters).Validate
+//@   assuming forall i int :: 0 <= i && i < len(parameters) ==> parameters[i] != nil
+//@   modifies *
+//@   preserves @C04 []*ParameterRef, ParameterRef.Value, Parameter.*, SerializationMethod.*, *bool, MediaType.*, map[string]*Encoding, Encoding.*, map[string]*HeaderRef, []string, map[string]*ExampleRef, ExampleRef.Value, Info.Title, Info.Version, Info.Extensions, License.Name, License.Extensions, ExternalDocs.URL, ExternalDocs.Extensions, Response.Description, RequestBody.Content, RequestBody.Extensions, Operation.Responses, Operation.Extensions, Server.URL, Server.Variables, Server.Extensions, SecurityScheme.*, map[string]*ServerVariable
+//@   loop 0 invariant fresh(dupes)
+//@   loop 0 invariant forall j int :: 0 <= j && j < #i && parameters[j].Value != nil ==> has(dupes, concat(concat(parameters[j].Value.In, ":"), parameters[j].Value.Name))
+//@   loop 0 invariant forall k string :: has(dupes, k) ==> (exists j int :: 0 <= j && j < #i && parameters[j].Value != nil && k == concat(concat(parameters[j].Value.In, ":"), parameters[j].Value.Name))
+//@   loop 0 invariant forall j int :: 0 <= j && j < #i ==> paramRefOK(parameters[j])
+//@   loop 0 invariant forall a int, b int :: 0 <= a && a < b && b < #i ==> !sameParam(parameters[a], parameters[b])
+//@   ensures [all-valid] result == nil ==> (forall j int :: 0 <= j && j < len(parameters) ==> paramRefOK(parameters[j]))
+//@   ensures [no-duplicates] result == nil ==> (forall a int, b int :: 0 <= a && a < b && b < len(parameters) ==> !sameParam(parameters[a], parameters[b]))
+//@   ensures [accepts-conforming] ((forall j int :: 0 <= j && j < len(parameters) ==> paramRefOK(parameters[j])) && (forall a int, b int :: 0 <= a && a < b && b < len(parameters) ==> !sameParam(parameters[a], parameters[b]))) ==> result == nil
+//@   option safety-tags none
+//@   tag C04
